@@ -622,7 +622,7 @@ def date_targets(base):
     return out
 
 
-SET_FAULTS = ['ele_plain', 'ele_TERM', 'ele_ELE', 'ele_SUB', 'ele_REP', 'ele_MIX', 'ele_date', 'ele_missing', 'ele_two_same_seg', 'ele_two_segs',
+SET_FAULTS = ['ele_plain', 'ele_srcsub', 'ele_TERM', 'ele_ELE', 'ele_SUB', 'ele_REP', 'ele_MIX', 'ele_date', 'ele_missing', 'ele_two_same_seg', 'ele_two_segs',
               'ele_extra', 'ele_extra_special', 'seg_unknown', 'seg_unknown_first', 'seg_unknown_last', 'seg_dup_first', 'seg_missing_first',
               'seg_trail', 'seg_blank', 'seg_unknown_blank', 'st_trail', 'st_extra_ele', 'st02_long', 'st_blank', 'st_dup_id', 'se_cnt', 'se_id',
               'se_omit', 'se_trail', 'se_blank', 'se_extra_ele', 'seg_two_errors']
@@ -650,6 +650,14 @@ def apply_fault(spec, f, ii, gi, si, terms_key, rnd):
             return False
         i, pos = rnd.choice(tg)
         mut.append(('ele', i, pos, Raw(VALS[cls])))
+    elif f == 'ele_srcsub':
+        # a simple element that carries the SOURCE's own component separator: it is read as a composite, reported as an invalid
+        # composite (6), and the echoed value then holds a separator of the source - which may be one of the acknowledgement too
+        tg = an_targets(base)
+        if not tg:
+            return False
+        i, pos = rnd.choice(tg)
+        mut.append(('ele', i, pos, Raw('0038' + TERMS[terms_key][2] + '9999')))
     elif f == 'ele_far':
         tg = [(i + 1, x[0]) for i, x in enumerate(bases()[base]['body']) if x[0] in ('HD', 'HI')]
         if not tg:
